@@ -107,11 +107,15 @@ func workerMain(args []string) {
 		fmt.Fprintf(w, "# %d\n", idx)
 		w.Flush()
 		c := genCase(stream, seed, idx)
-		for _, line := range c.lines {
+		for _, full := range c.lines {
+			line, annot := full, ""
+			if i := strings.Index(full, "\t"); i >= 0 {
+				line, annot = full[:i], full[i+1:]
+			}
 			fmt.Fprintf(w, "> %s\n", line)
 			w.Flush()
 			done := make(chan outcome, 1)
-			go func() { done <- execLine(line) }()
+			go func() { done <- checkAnnot(execLine(line), line, annot) }()
 			select {
 			case o := <-done:
 				fmt.Fprintf(w, "< %s\n", o.String())
@@ -317,4 +321,30 @@ func describe(line string) string {
 		}
 	}
 	return strings.Join(f, " ")
+}
+
+// checkAnnot applies a generator-supplied expectation (an implementation-level
+// oracle that needs no model): "expect=<canon>" or "unquoted=field|reject".
+func checkAnnot(o outcome, line, annot string) outcome {
+	switch {
+	case annot == "":
+	case strings.HasPrefix(annot, "expect="):
+		if o.base != "ok "+annot[len("expect="):] {
+			o.flags = append(o.flags, "expect")
+		}
+	case annot == "unquoted=field":
+		f := strings.Fields(line)
+		if len(f) < 2 || o.base != "ok (Field s"+f[1]+")" {
+			o.flags = append(o.flags, "unquoted")
+		}
+	case annot == "unquoted=reject":
+		if strings.HasPrefix(o.base, "ok (Field") {
+			o.flags = append(o.flags, "unquoted")
+		}
+	case annot == "mustfail":
+		if strings.HasPrefix(o.base, "ok") {
+			o.flags = append(o.flags, "swallowed")
+		}
+	}
+	return o
 }
